@@ -131,7 +131,7 @@ def evaluate(case):
         if r[0] != "ok":
             return Result(skipped="encoder does not accept")
         e = r[1]
-        if e != "" and WELL_FORMED.match(e) is None:
+        if e != "" and WELL_FORMED.fullmatch(e) is None:
             return Result(Fail("encoder_output_malformed", smiles=smi[:200], selfies=e[:300]), True)
         toks = call(lambda: list(sf.split_selfies(e)))
         if toks[0] != "ok" or "".join(toks[1]) != e or call(sf.len_selfies, e) != ("ok", len(toks[1])):
